@@ -62,16 +62,7 @@ class ConsumerClient(Client):
         return self.queued()
 
     def seed(self):
-        """Sampling seeds: mostly arbitrary, sometimes the boundary values."""
-        r = self.rng
-        x = r.random()
-        if x < 0.12:
-            return 0
-        if x < 0.18:
-            return 1
-        if x < 0.22:
-            return 2 ** 32 - 1
-        return r.randrange(1 << 30)
+        return self.seed_value()
 
     def sample_size(self):
         r = self.rng
@@ -92,6 +83,41 @@ class ConsumerClient(Client):
             else:
                 out.append([k, r.randrange(1, 1000)])
         return out
+
+    def herald_session(self, sid):
+        """A photon-carrying herald whose output mode can receive more than one
+        photon, observed through threshold and counting detectors with both
+        N-sample methods."""
+        r, w = self.rng, self.w
+        n = r.randint(3, 4)
+        cid, did = w.new_id("c"), w.new_id("det")
+        hi, ho = r.randrange(n), r.randrange(n)
+        st = [0] * (n - 1)
+        for _ in range(2):
+            st[r.randrange(n - 1)] += 1
+        q = [{"op": "new_unitary", "n": n, "seed": r.randrange(1 << 30),
+              "kind": "haar", "out": cid},
+             {"op": "herald", "c": cid, "n": r.choice([1, 1, 0, 2]), "i": hi,
+              "o": ho},
+             {"op": "new_detector", "out": did, "eff": 1, "p_dark": 0,
+              "pnr": r.random() < 0.3},
+             {"op": "cons_set", "kind": "sam", "s": sid, "attr": "circuit",
+              "ref": cid, "ref_c": cid},
+             {"op": "cons_set", "kind": "sam", "s": sid, "attr": "input_state",
+              "value": st},
+             {"op": "cons_set", "kind": "sam", "s": sid, "attr": "detector",
+              "ref": did},
+             {"op": "sample_n_outputs", "s": sid, "n": 20000,
+              "seed": self.seed()},
+             {"op": "sample_n_inputs", "s": sid, "n": 20000,
+              "seed": self.seed()}]
+        if r.random() < 0.5:
+            q.insert(2, {"op": "bs", "c": cid, "m1": hi,
+                         "m2": (hi + 1) % n, "r": round(r.uniform(0.2, 0.8), 3),
+                         "loss": r.choice([0, 0, 0.2])})
+        self.queue = q
+        w.stats["intent:herald_session"] += 1
+        return self.queued()
 
     def state_for_n(self, n):
         s = [0] * n
@@ -216,6 +242,8 @@ class SamplerUser(ConsumerClient):
         meta = w.meta["sam"][sid]
         if r.random() < 0.04:
             return self.variant_intent(sid)
+        if cfg.get("big_n") and r.random() < 0.05:
+            return self.herald_session(sid)
         k = r.choice(["read", "read", "sample", "sample_n", "sample_n",
                       "sample_o", "circuit", "circuit", "state", "source",
                       "src_edit", "src_edit", "detector", "det_edit", "backend",
